@@ -203,6 +203,7 @@ where
     /*@*/ closed spec fn observes_finish() -> bool { true }
     /*@*/ closed spec fn replace_is_atomic() -> bool { false }
     /*@*/ open spec fn accepts_replace(&self) -> bool { true }
+    /*@*/ #[verifier::prophetic] closed spec fn fobs(&self) -> Obs<Self::Error> { obs_now(mut_ref_future(self.d)) }
     /*@*/ #[verifier::external_body]  // assumed contract: see DESIGN.md section 5 C01 (Verus limitation: &mut stored in NoFinishHook passed to generic code)
     fn equal(&mut self, old: usize, new: usize, len: usize) -> (res: Result<(), D::Error>)
     {
@@ -356,6 +357,7 @@ where
 /*@*/     requires diff_pre(*vstd::prelude::old(d), old, old_range, new, new_range, alg_lvl(deadline)),
 /*@*/     ensures
 /*@*/         err_post(*vstd::prelude::old(d), *final(d), res),
+/*@*/         (*final(d)).fobs() == (*vstd::prelude::old(d)).fobs(),
 /*@*/         seg_post(*vstd::prelude::old(d), *final(d), old, old_range, new, new_range, alg_lvl(deadline), false, fin::<D>(), res.is_ok()),
 {
     /*@*/ let ghost ud0 = *d;
@@ -483,6 +485,7 @@ where
 /*@*/     requires diff_pre(*vstd::prelude::old(d), old, old_range, new, new_range, alg_lvl(None)),
 /*@*/     ensures
 /*@*/         err_post(*vstd::prelude::old(d), *final(d), res),
+/*@*/         (*final(d)).fobs() == (*vstd::prelude::old(d)).fobs(),
 /*@*/         seg_post(*vstd::prelude::old(d), *final(d), old, old_range, new, new_range, alg_lvl(None), false, fin::<D>(), res.is_ok()),
 {
     diff_deadline(d, old, old_range, new, new_range, None)
